@@ -71,6 +71,7 @@ class Trace:
         self.b = body
         self.terminals = []   # (method, call term, path tuple)
         self.seen = set()
+        self.argidx = {}      # id(call term) -> index of the argument that carries the iterator
 
     def run(self, local, path=()):
         if (local, path) in self.seen or len(path) > 12:
@@ -98,6 +99,7 @@ class Trace:
                 elif m in ("deref", "deref_mut", "borrow", "borrow_mut", "as_ref", "as_mut", "clone", "from", "into") and not o["dest"]["p"]:
                     self.run(o["dest"]["l"], path)
                 else:
+                    self.argidx[id(o)] = int(w[3:]) if w[3:].isdigit() else None
                     self.terminals.append((m, o, path, bb))
 
 
@@ -209,14 +211,18 @@ def _display_owned(lib, b):
 
 def judge_site(lib, b, start, table, display_exempt=True):
     """Returns (class, detail). class in insensitive/display/table/sensitive."""
-    tr = Trace(b)
     if start.dest["p"]:
         return "sensitive", "iterator stored into a place"
-    tr.run(start.dest["l"])
+    return _judge(lib, b, start.dest["l"], start, start.callee.rsplit("::", 1)[-1], table, display_exempt, 0)
+
+
+def _judge(lib, b, local, start, head, table, display_exempt, depth):
+    tr = Trace(b)
+    tr.run(local)
     terms = tr.terminals
     methods = sorted({m for m, _, _, _ in terms})
     positional = any(set(p) & POSITIONAL for _, _, p, _ in terms)
-    sig = "%s|%s" % (start.callee.rsplit("::", 1)[-1], ",".join(methods) or "-")
+    sig = "%s|%s" % (head, ",".join(methods) or "-")
     if display_exempt and (b.impl_trait in DISPLAY_TRAITS or b.id in DISPLAY_FNS or _display_owned(lib, b)):
         return "display", sig
     if not terms:
@@ -230,6 +236,15 @@ def judge_site(lib, b, start, table, display_exempt=True):
     for m, o, path, bb in terms:
         if m in INSENSITIVE:
             continue
+        # the iterator handed to a private helper of this crate: judged by what the helper does with that parameter
+        fnm = o.get("func", {}).get("fn", {}) if isinstance(o.get("func"), dict) else {}
+        hb = lib.body(fnm.get("resolved") or fnm.get("path") or "")
+        idx = tr.argidx.get(id(o))
+        if hb is not None and hb is not b and "{closure" not in hb.id and idx is not None and depth < 2 and idx + 1 <= hb.arg_count:
+            cls, det = _judge(lib, hb, idx + 1, None, m, table, display_exempt, depth + 1)
+            if cls == "sensitive":
+                bad.append("%s -> %s" % (m, det))
+            continue
         if m in ("collect", "extend", "from_iter", "unzip", "sum", "product"):
             dt = o.get("dest_ty", "")
             tys = [dt] + o.get("arg_tys", [])[:1] if m == "extend" else [dt]
@@ -240,7 +255,7 @@ def judge_site(lib, b, start, table, display_exempt=True):
                                  "&mut std::collections::HashMap<", "variable::struct_type::StructType", "variable::multi_type::MultiType",
                                  "&mut instruction::local_variable::LocalVariables")):
                 continue
-            if m == "collect" and sorted_before_use(b, start):
+            if m == "collect" and start is not None and sorted_before_use(b, start):
                 continue        # collected, then sorted before anything looks at it
             bad.append("%s into %s" % (m, tys[0] if tys else "?"))
             continue
